@@ -22,6 +22,7 @@ import (
 )
 
 type c19Name struct {
+	port   int
 	name   string
 	pool   []string // candidate IPs
 	addrs  []string // model: current addresses
@@ -66,7 +67,7 @@ func (w *c19Worker) members() []string {
 	var m []string
 	for _, n := range w.names {
 		for _, a := range n.addrs {
-			m = append(m, fmt.Sprintf("%s:%d", a, w.port))
+			m = append(m, fmt.Sprintf("%s:%d", a, n.port))
 		}
 	}
 	sort.Strings(m)
@@ -152,12 +153,14 @@ func (w *c19Worker) attributionProbe(x string, trace []string) bool {
 		}
 	}
 	ip := x[:strings.LastIndexByte(x, ':')]
+	xport := w.port
+	fmt.Sscanf(x[strings.LastIndexByte(x, ':')+1:], "%d", &xport)
 	var last []string
 	for attempt := 0; attempt < 4; attempt++ {
 		id := fmt.Sprintf("w%da%d", w.id, atomic.AddInt64(&w.probeNo, 1))
 		call := id + "-call"
 		resp := fmt.Sprintf("SIP/2.0 200 OK\r\nVia: SIP/2.0/UDP 127.0.0.1:5060;branch=z9hG4bKunknown%s\r\nFrom: <sip:alice@ua.verif.test>;tag=ft\r\nTo: <sip:bob@%s>;tag=tt\r\nCall-ID: %s\r\nCSeq: 1 INVITE\r\nContent-Length: 0\r\n\r\n", id, w.svc, call)
-		w.fx.inject(ip, w.port, []byte(resp))
+		w.fx.inject(ip, xport, []byte(resp))
 		for i := 0; i < 3; i++ {
 			req := w.request("INFO", id, call, "ft", "tt")
 			w.fx.inject("127.1.0.1", 5060, req)
@@ -277,7 +280,7 @@ func (w *c19Worker) runSequence(seq []c19Outcome, probeEvery bool, rnd *rand.Ran
 		}
 		for _, n := range w.names {
 			for a := range n.ever {
-				x := fmt.Sprintf("%s:%d", a, w.port)
+				x := fmt.Sprintf("%s:%d", a, n.port)
 				cur := false
 				for _, c := range n.addrs {
 					if c == a {
@@ -314,7 +317,11 @@ func newC19Worker(id int, scheme string, twoNames bool, run *ev.Run, stats *c19S
 		w.port = 7001
 	}
 	for k := 1; k <= 5; k++ {
-		a := fmt.Sprintf("127.4.%d.%d:%d", id, k, w.port)
+		pk := w.port
+		if twoNames && k >= 4 {
+			pk = w.port + 2 // the second host name of a rotation uses another port
+		}
+		a := fmt.Sprintf("127.4.%d.%d:%d", id, k, pk)
 		var err error
 		if scheme == "udp" {
 			err = w.sinks.listenUDP(a)
@@ -329,13 +336,13 @@ func newC19Worker(id int, scheme string, twoNames bool, run *ev.Run, stats *c19S
 	var backends []string
 	if twoNames {
 		w.names = []*c19Name{
-			{name: fmt.Sprintf("h%da.verif.test", id), pool: []string{ip(1), ip(2), ip(3)}, ever: map[string]bool{}},
-			{name: fmt.Sprintf("h%db.verif.test", id), pool: []string{ip(4), ip(5)}, ever: map[string]bool{}}}
+			{name: fmt.Sprintf("h%da.verif.test", id), port: w.port, pool: []string{ip(1), ip(2), ip(3)}, ever: map[string]bool{}},
+			{name: fmt.Sprintf("h%db.verif.test", id), port: w.port + 2, pool: []string{ip(4), ip(5)}, ever: map[string]bool{}}}
 	} else {
-		w.names = []*c19Name{{name: fmt.Sprintf("h%da.verif.test", id), pool: []string{ip(1), ip(2), ip(3), ip(4), ip(5)}, ever: map[string]bool{}}}
+		w.names = []*c19Name{{name: fmt.Sprintf("h%da.verif.test", id), port: w.port, pool: []string{ip(1), ip(2), ip(3), ip(4), ip(5)}, ever: map[string]bool{}}}
 	}
 	for _, n := range w.names {
-		backends = append(backends, fmt.Sprintf("%s://%s:%d", scheme, n.name, w.port))
+		backends = append(backends, fmt.Sprintf("%s://%s:%d", scheme, n.name, n.port))
 	}
 	fx, err := newVfFixture(w.svc, "127.0.0.1", 5060, backends, 1200, false, false, false, nil, nil)
 	if err != nil {
